@@ -9,6 +9,7 @@ import Blue.Proofs.ManiReopen
 import Blue.Proofs.ManiOpenBytes
 import Blue.Proofs.ManiLock
 import Blue.Proofs.ConstsTieC13
+import Blue.Proofs.ManiSchedule
 /-! # Property C13 — manifest edits are atomic and durable; reopening replays exactly those applied
 
 Property theorems only.  Models: `Blue/Model/Mani.lean` (text format: lines `hex8(crc) action
@@ -30,10 +31,15 @@ is the list of edits it holds and "reopen" is `replay` of that list by definitio
 file's bytes with fuel `|bytes| + 2`, then `replay`) on the bytes of the MANIFEST a crash leaves.
 `readEdits_fuel` makes the fuels of these theorems commensurable.  Incarnations: `incarnation_ok`,
 `incarnations_ok`, `chain_incarnations` close the crash and chain theorems under reopening (a
-crash during the reopen's rollover, edits after it, a second crash, …).  Not in any theorem: the
-rollover rule (`rollsOver`, `schedule`: WHEN `_apply` rolls over — the crash theorems hold for a
-rollover after any edit, so for every ratio) and reading the backup fragments from bytes
-(`Manifest::verify`; the chain theorems are on edit lists). -/
+crash during the reopen's rollover, edits after it, a second crash, …).  The rollover RULE
+(`rollsOver`, `schedule`: WHEN `_apply` rolls over) is block `ManiSchedule`: the history `schedule`
+emits is one of the crash theorems' alphabet and rolls over, on the model file system, exactly where
+the test `on_disk_bytes > ratio * in_memory_bytes && !was_empty` says (`schedule_is_a_history`); the
+crash / reopen-from-bytes / chain theorems for that history (`scheduled_*`); the test as an
+inequality, ratio 0, `was_empty`, antitonicity, and the bound on MANIFEST's size it enforces at every
+call (`rollover_rule`, `scheduled_size_bound`).  That the CODE evaluates this test where the model
+does is correspondence (the driver runs `schedule` against the real `Manifest`).  Not in any theorem:
+reading the backup fragments from bytes (`Manifest::verify`; the chain theorems are on edit lists). -/
 namespace Blue.Props.C13
 open Blue.Mani Blue.ManiCrash
 
@@ -358,6 +364,169 @@ example :
     ∧ openBytes Blue.Crc32c.crc32c ((fileBytes Blue.Crc32c.crc32c [e1, e2]).take 31) = some (replay maniAlgebra [e1]) := by
   decide +kernel
 
+-- BEGIN ManiSchedule
+/-! ## the rollover rule inside the crash theorems -/
+
+/-- **the scheduled history is a history of the crash theorems, and follows the rule on the model
+    file system**: for every ratio, checksum and program from the empty directory (every list of
+    `apply` calls is one: `program_edits`), `schedule` — edits, with a rollover exactly where
+    `rollsOver` says on `schedule`'s own books — emits `Client` calls (`edit` / `rollover` /
+    `editRoll`: the alphabet `crash_recover` quantifies over) that hold the events' edits in order,
+    and each call is what the test answers on the edits MANIFEST holds IN THE FILE SYSTEM MODEL when
+    the call is made (`FollowsRule`, spelled out by `followsRule_means`) -/
+theorem schedule_is_a_history (crc : List Nat → Nat) (ratio : Nat) (evs : List Event) (hp : Program evs = true) :
+    ∃ h : List (Client Edit), schedule crc ratio evs [] [] = some h
+      ∧ editsOf h = eventEdits evs ∧ FollowsRule crc ratio h emptyFs [] :=
+  Blue.Mani.schedule_is_a_history crc ratio evs hp
+
+/-- … from any directory on which `schedule`'s books are right -/
+theorem schedule_follows_rule (crc : List Nat → Nat) (ratio : Nat) (evs : List Event) (mani sofar : List Edit)
+    (h : List (Client Edit)) (fs : Fs Edit) (hs : schedule crc ratio evs mani sofar = some h) (hfs : onDisk fs = mani) :
+    FollowsRule crc ratio h fs sofar ∧ editsOf h = eventEdits evs :=
+  Blue.Mani.schedule_follows_rule crc ratio evs mani sofar h fs hs hfs
+
+theorem followsRule_means (crc : List Nat → Nat) (ratio : Nat) (cs : List (Client Edit)) (fs : Fs Edit) (sofar : List Edit) (e : Edit) :
+    (FollowsRule crc ratio (.edit e :: cs) fs sofar ↔
+      rollsOver crc ratio (onDisk fs) sofar e = false
+      ∧ FollowsRule crc ratio cs (run fs (block maniAlgebra sofar (.edit e))) (sofar ++ [e]))
+    ∧ (FollowsRule crc ratio (.editRoll e :: cs) fs sofar ↔
+      rollsOver crc ratio (onDisk fs) sofar e = true
+      ∧ FollowsRule crc ratio cs (run fs (block maniAlgebra sofar (.editRoll e))) (sofar ++ [e]))
+    ∧ (FollowsRule crc ratio (.rollover :: cs) fs sofar ↔
+      onDisk fs ≠ [] ∧ FollowsRule crc ratio cs (run fs (block maniAlgebra sofar .rollover)) sofar) :=
+  ⟨Iff.rfl, Iff.rfl, Iff.rfl⟩
+
+/-- `schedule` answers exactly on the programs (no explicit rollover before there is a MANIFEST);
+    a list of `apply` calls is one -/
+theorem schedule_total (crc : List Nat → Nat) (ratio : Nat) (evs : List Event) (sofar : List Edit) (es : List Edit) :
+    (schedule crc ratio evs [] sofar).isSome = Program evs
+    ∧ Program (es.map Event.edit) = true ∧ eventEdits (es.map Event.edit) = es :=
+  ⟨schedule_isSome_iff crc ratio evs sofar, program_edits es, eventEdits_edits es⟩
+
+/-- **crash, for the store as it decides to roll over**: for every ratio, the history `schedule`
+    emits follows the rule, and cut at any system call it reopens under both persistence models to
+    the replay of a prefix of the EVENTS' edits that contains every acknowledged one -/
+theorem scheduled_crash_recover (crc : List Nat → Nat) (ratio : Nat) (evs : List Event) (h : List (Client Edit))
+    (hs : schedule crc ratio evs [] [] = some h) (n : Nat) :
+    FollowsRule crc ratio h emptyFs []
+    ∧ Ok maniAlgebra (recoverB maniAlgebra (run emptyFs ((opsOf maniAlgebra h []).take n))) (eventEdits evs)
+        (acked ((opsOf maniAlgebra h []).take n)) (appended ((opsOf maniAlgebra h []).take n))
+    ∧ Ok maniAlgebra (recoverA maniAlgebra (run emptyFs ((opsOf maniAlgebra h []).take n))) (eventEdits evs)
+        (acked ((opsOf maniAlgebra h []).take n)) (appended ((opsOf maniAlgebra h []).take n)) :=
+  Blue.Mani.scheduled_crash_recover crc ratio evs h hs n
+
+/-- **crash, through the bytes, for the scheduled history** -/
+theorem scheduled_open_after_history (crc : List Nat → Nat) (ratio : Nat) (hcrc : CrcOk crc) (evs : List Event)
+    (h : List (Client Edit)) (hs : schedule crc ratio evs [] [] = some h) (hok : ∀ e ∈ eventEdits evs, e.Ok) (n : Nat) :
+    let fs := run emptyFs ((opsOf maniAlgebra h []).take n)
+    openBytes crc (fileBytes crc (crashB fs).mani.durable) = some (recoverB maniAlgebra fs)
+    ∧ openBytes crc (fileBytes crc (crashA fs).mani.durable) = some (recoverA maniAlgebra fs)
+    ∧ (∃ k, acked ((opsOf maniAlgebra h []).take n) ≤ k ∧ k ≤ appended ((opsOf maniAlgebra h []).take n)
+        ∧ openBytes crc (fileBytes crc (crashB fs).mani.durable) = some (replay maniAlgebra ((eventEdits evs).take k)))
+    ∧ (∃ k, acked ((opsOf maniAlgebra h []).take n) ≤ k ∧ k ≤ appended ((opsOf maniAlgebra h []).take n)
+        ∧ openBytes crc (fileBytes crc (crashA fs).mani.durable) = some (replay maniAlgebra ((eventEdits evs).take k))) :=
+  Blue.Mani.scheduled_open_after_history crc ratio hcrc evs h hs hok n
+
+/-- **chain, for the scheduled history**: crash-free, and across a crash at any call and the reopen -/
+theorem scheduled_chain (crc : List Nat → Nat) (ratio : Nat) (evs : List Event) (h : List (Client Edit))
+    (hs : schedule crc ratio evs [] [] = some h) (n : Nat) :
+    chainOk (fragments (run emptyFs (opsOf maniAlgebra h []))) = true
+    ∧ (let fs := run emptyFs ((opsOf maniAlgebra h []).take n)
+       chainOk (fragments (run (crashA fs) (reopenOps maniAlgebra (crashA fs)))) = true
+       ∧ chainOk (fragments (run (crashB fs) (reopenOps maniAlgebra (crashB fs)))) = true) :=
+  Blue.Mani.scheduled_chain crc ratio evs h hs n
+
+/-- **the rule** (`on_disk_bytes > log_rollover_ratio * in_memory_bytes && !was_empty`, where MANIFEST
+    held `m` before the write and `s` are the edits applied before `e`):
+    (1) `_apply` does not roll over iff MANIFEST with `e` written is at most `ratio` times
+        `Manifest::size` of the state after `e`, or the state before `e` held no strings;
+    (2) ratio 0: it rolls over after every edit applied to a state that holds a string, and only then;
+    (3) an edit applied to a state without strings never rolls over, whatever the ratio;
+    (4) antitone in the ratio, call by call;  (5) monotone in the length of MANIFEST -/
+theorem rollover_rule (crc : List Nat → Nat) (ratio : Nat) (m s : List Edit) (e : Edit) :
+    (rollsOver crc ratio m s e = false ↔
+      (fileBytes crc (m ++ [e])).length ≤ ratio * (replay maniAlgebra (s ++ [e])).size
+      ∨ (replay maniAlgebra s).strs = [])
+    ∧ rollsOver crc 0 m s e = !(replay maniAlgebra s).strs.isEmpty
+    ∧ ((replay maniAlgebra s).strs = [] → rollsOver crc ratio m s e = false)
+    ∧ (∀ r', ratio ≤ r' → rollsOver crc r' m s e = true → rollsOver crc ratio m s e = true)
+    ∧ (∀ m', (fileBytes crc m).length ≤ (fileBytes crc m').length →
+        rollsOver crc ratio m s e = true → rollsOver crc ratio m' s e = true) :=
+  ⟨rollsOver_false_iff crc ratio m s e, rollsOver_ratio_zero crc m s e, rollsOver_was_empty crc ratio m s e,
+   fun r' hr h => rollsOver_antitone crc ratio r' hr m s e h,
+   fun m' hm h => rollsOver_mono_file crc ratio m m' s e hm h⟩
+
+/-- **the bound the rule enforces, at every call of the scheduled history** (`g`: the file system
+    before the call, `s`: the edits applied before it).  An `apply` that does not roll over leaves
+    MANIFEST = what it held + the edit, synced, of at most `ratio · Manifest::size(state)` bytes —
+    unless the state before the edit held no strings.  An `apply` that rolls over, and an explicit
+    rollover, leave MANIFEST holding exactly ONE edit, the roll-up of the state, synced (a size that
+    does not depend on the ratio); the former happens only when the bound was exceeded.  So between
+    two rollovers MANIFEST is never longer, at a return of `apply`, than
+    `max (ratio · size) (bytes of the roll-up + edits applied while the state had no strings)`. -/
+theorem scheduled_size_bound (crc : List Nat → Nat) (ratio : Nat) (evs : List Event) (h pre post : List (Client Edit))
+    (c : Client Edit) (hs : schedule crc ratio evs [] [] = some h) (hsplit : h = pre ++ c :: post) :
+    let g := run emptyFs (opsOf maniAlgebra pre [])
+    let s := editsOf pre
+    let g' := run g (block maniAlgebra s c)
+    match c with
+    | .edit e =>
+      g'.mani = ⟨onDisk g ++ [e], []⟩
+      ∧ ((fileBytes crc (onDisk g')).length ≤ ratio * (replay maniAlgebra (s ++ [e])).size
+         ∨ (replay maniAlgebra s).strs = [])
+    | .editRoll e =>
+      g'.mani = ⟨[maniAlgebra.rollup (replay maniAlgebra (s ++ [e]))], []⟩
+      ∧ ratio * (replay maniAlgebra (s ++ [e])).size < (fileBytes crc (onDisk g ++ [e])).length
+      ∧ (replay maniAlgebra s).strs ≠ []
+    | .rollover => g'.mani = ⟨[maniAlgebra.rollup (replay maniAlgebra s)], []⟩ :=
+  Blue.Mani.scheduled_size_bound crc ratio evs h pre post c hs hsplit
+
+/-- ratio 0, whole histories: an `apply` that did not roll over was applied to a state without strings -/
+theorem ratio_zero_edit_was_empty (crc : List Nat → Nat) (pre post : List (Client Edit)) (e : Edit) (fs : Fs Edit)
+    (sofar : List Edit) (h : FollowsRule crc 0 (pre ++ .edit e :: post) fs sofar) :
+    (replay maniAlgebra (sofar ++ editsOf pre)).strs = [] :=
+  Blue.Mani.ratio_zero_edit_was_empty crc pre post e fs sofar h
+
+/-- the shape of a call: 0 = `apply`, 1 = rollover, 2 = `apply` that rolls over -/
+def callShape : Client Edit → Nat
+  | .edit _ => 0
+  | .rollover => 1
+  | .editRoll _ => 2
+
+/-- non-vacuity, and the rule at work (checksum `crc0`; an edit adding one 1-byte string is 20 bytes:
+    `xxxxxxxx+a\n--------\n`).  Add `a`, add `b`, remove `a`, reopen, add `a`:
+    ratio 20: 20 B (state was empty), 40 ≤ 20·2, then 60 > 20·1: the removal rolls over; the reopen
+    rolls over; 40 > 20·2 is false: no rollover.  Ratio 2 (the default) and ratio 0: every `apply` after
+    the first rolls over.  Ratio 100: only the reopen does. -/
+example :
+    (schedule crc0 20 [.edit e1, .edit e2, .edit ⟨[[97]], [], []⟩, .reopen, .edit e1] [] []).map (·.map callShape)
+      = some [0, 0, 2, 1, 0]
+    ∧ (schedule crc0 2 [.edit e1, .edit e2, .edit ⟨[[97]], [], []⟩, .reopen, .edit e1] [] []).map (·.map callShape)
+      = some [0, 2, 2, 1, 2]
+    ∧ (schedule crc0 0 [.edit e1, .edit e2, .edit ⟨[[97]], [], []⟩, .reopen, .edit e1] [] []).map (·.map callShape)
+      = some [0, 2, 2, 1, 2]
+    ∧ (schedule crc0 100 [.edit e1, .edit e2, .edit ⟨[[97]], [], []⟩, .reopen, .edit e1] [] []).map (·.map callShape)
+      = some [0, 0, 0, 1, 0]
+    ∧ schedule crc0 2 [.reopen, .rollover] [] [] = none
+    ∧ (fileBytes crc0 [e1, e2]).length = 40 ∧ (replay maniAlgebra [e1, e2]).size = 2
+    ∧ (fileBytes crc0 [e1, e2, ⟨[[97]], [], []⟩]).length = 60 ∧ (replay maniAlgebra [e1, e2, ⟨[[97]], [], []⟩]).size = 1 := by
+  decide
+/-- … and the hypotheses of the `scheduled_*` theorems are met by that program: it is one, its edits are `Ok` -/
+example : Program [.edit e1, .edit e2, .edit ⟨[[97]], [], []⟩, .reopen, .edit e1] = true
+    ∧ ∀ e ∈ eventEdits [.edit e1, .edit e2, .edit ⟨[[97]], [], []⟩, .reopen, .edit e1], e.Ok := by
+  refine ⟨rfl, ?_⟩
+  intro e he
+  have hrm : (⟨[[97]], [], []⟩ : Edit).Ok := Built.ok (.rm (s := [97]) .empty rfl)
+  have h1 : e1.Ok := Built.ok (.add (s := [97]) .empty rfl)
+  have h2 : e2.Ok := Built.ok (.add (s := [98]) .empty rfl)
+  simp only [eventEdits, List.mem_cons, List.not_mem_nil, or_false] at he
+  rcases he with rfl | rfl | rfl | rfl
+  · exact h1
+  · exact h2
+  · exact hrm
+  · exact h1
+-- END ManiSchedule
+
 end Blue.Props.C13
 
 #print axioms Blue.Props.C13.constants_from_source
@@ -392,3 +561,13 @@ end Blue.Props.C13
 #print axioms Blue.Props.C13.open_reads_under_lock
 #print axioms Blue.Props.C13.stale_open_state
 #print axioms Blue.Props.C13.stale_open_loses_edits
+#print axioms Blue.Props.C13.schedule_is_a_history
+#print axioms Blue.Props.C13.schedule_follows_rule
+#print axioms Blue.Props.C13.followsRule_means
+#print axioms Blue.Props.C13.schedule_total
+#print axioms Blue.Props.C13.scheduled_crash_recover
+#print axioms Blue.Props.C13.scheduled_open_after_history
+#print axioms Blue.Props.C13.scheduled_chain
+#print axioms Blue.Props.C13.rollover_rule
+#print axioms Blue.Props.C13.scheduled_size_bound
+#print axioms Blue.Props.C13.ratio_zero_edit_was_empty
